@@ -1046,6 +1046,11 @@ EXTRACTORS["C14"] = EXTRACTORS.get("C14", []) + [GEN_SRC[n] for n in ("SrcHmmVit
 TRANSLATOR_MODULES.append("rs2lean_genavl")
 GEN_SRC.update({n: gen_src(n) for n in ("SrcAvl",)})
 EXTRACTORS["C07"] = EXTRACTORS["C07"] + [GEN_SRC["SrcAvl"]]
+# genleft: leftovers of the earlier translation builders — tools/rs2lean_genleft.py (dialect "px": expression-bodied
+# functions; units of genio's sub-dialect "io"); docs/notes/GEN.md, section "genleft"
+TRANSLATOR_MODULES.append("rs2lean_genleft")
+GEN_SRC.update({n: gen_src(n) for n in ("SrcSbRankOrd",)})
+EXTRACTORS["C17"] = EXTRACTORS["C17"] + [GEN_SRC["SrcSbRankOrd"]]
 
 
 def main():
